@@ -62,7 +62,7 @@ def _ready_pattern(rng):
 
 def gen(rng, tier, index):
     nops = rng.randint(3, 7 if tier == "quick" else 9)
-    maxlen = 64 if tier == "quick" else rng.choice([64, 64, 256, 1024])
+    maxlen = rng.choice([64] * 11 + [1024]) if tier == "quick" else rng.choice([64, 64, 256, 1024])
     ops = []
     for i in range(nops):
         is_data = rng.random() < 0.65
@@ -71,7 +71,9 @@ def gen(rng, tier, index):
               "mode": rng.choice(["pulse", "hold", "hold"]), "gap": rng.choice([0, 0, 1, 2, 7]), "wiggle": int(rng.random() < 0.3),
               "lead": rng.randint(0, 4)}
         if is_data:
-            if i == 0:
+            if i == 0 and maxlen == 1024 and tier == "quick":
+                n = rng.choice([1024, 1024, 1023, 1022, 1021, 1020])      # the largest payloads: boundary of the length counter
+            elif i == 0:
                 n = (index % (maxlen + 1))
             else:
                 n = rng.choice([0, rng.randint(1, 8), rng.randint(1, 16), rng.randint(1, maxlen), rng.randint(1, maxlen)])
